@@ -410,7 +410,7 @@ func check(c *fw.Ctx, all []kase) error {
 		k, p, o := &all[i], progs[i], obss[i]
 		parts := strings.SplitN(s, " / ", 2)
 		rep := map[string]any{"tier": k.Tier, "ctx": k.Ctx, "kind": k.Kind, "toks": k.Toks, "lits": k.Lits, "place": k.Place, "obs": k.Obs,
-			"specs": k.Specs, "vals": k.Vals, "res": k.Res,
+			"specs": k.Specs, "vals": k.Vals, "trail": k.Trail, "res": k.Res,
 			"program": p.Src, "expected_stdout": p.Want, "observed": o, "same_signature": len(sigs[s])}
 		if x < len(natRes) {
 			n := natRes[x]
